@@ -2,6 +2,7 @@ import Model.Rules
 import Model.Checker
 import Model.Guard
 import Model.Migration
+import Model.Enfold
 /-!
 # The Python primitives that the translated rule bodies are made of
 
@@ -32,6 +33,12 @@ inductive V where
   | world (st : Migration.MState) (k : Nat) (f : Migration.Fault) (raised : Bool)
                                                -- what the effects of a migration request act on: the store's state, the
                                                -- number of steps executed so far, the fault plan, whether a step raised
+  | polv (u : Store.Uid) (p : Store.Pol) (ok : Bool)   -- a Policy object handed to / read from a storage: its uid, its
+                                               -- content, whether the backend can store it
+  | pols (l : Store.St)                        -- a listing read from a storage
+  | eworld (cfg : Store.Cfg) (s : Enfold.EState) (touched : Bool) (raised : Option Store.Out)
+                                               -- what the methods of the enfolding cache act on: the two stores, whether
+                                               -- the backend was called, the exception a storage call ended in
 
 instance : Inhabited V := ⟨.py .none⟩
 
@@ -55,6 +62,9 @@ def truth : V → Bool
   | .obj _ => true
   | .migset _ => true
   | .world _ _ _ _ => true
+  | .polv _ _ _ => true
+  | .pols l => !l.isEmpty
+  | .eworld _ _ _ _ => true
 
 /-- the answer of `satisfied` as the checkers see it: its truthiness, or the exception -/
 def toR (m : M) : R := m.map truth
@@ -128,6 +138,7 @@ def callList (a : M) : M :=
     | .py (.tuple xs) => .ok (.py (.list xs))
     | .py (.list xs) => .ok (.py (.list xs))
     | .set xs => .ok (.py (.list xs))
+    | .pols l => .ok (.pols l)
     | _ => raiseM
 
 /-- `set(x)`: every member must be hashable -/
@@ -218,6 +229,7 @@ def callLen (a : M) : M :=
     | .py (.dict kvs) => cInt kvs.length
     | .set xs => cInt xs.length
     | .seq xs => cInt xs.length
+    | .pols l => cInt l.length
     | _ => raiseM                                      -- TypeError: object of type … has no len()
 
 /-- the items a `for` loop / a comprehension iterates over -/
@@ -227,6 +239,7 @@ def items : V → Option (List V)
   | .py (.tuple xs) => some (xs.map V.py)
   | .py (.str cs) => some (cs.map fun c => V.py (.str [c]))
   | .set xs => some (xs.map V.py)
+  | .pols l => some (l.map fun (x : Store.Uid × Store.Pol) => V.polv x.1 x.2 true)
   | _ => Option.none
 
 /-- `for x in xs: BODY` followed by `REST`: the body of one iteration receives what comes after it (the next
@@ -563,5 +576,56 @@ def saveAppliedM (x w : M) (k : V → M) : M :=
       if f == .save n then .ok (.world st n f true)
       else k (.world { st with last := i.toNat } (n + 1) f false)
     | _, _ => raiseM
+
+/-! ### the enfolding cache: calls of the two storages as effects on an explicit world value -/
+
+/-- evaluate call arguments left to right -/
+def evalArgs : List M → Except PyErr (List V)
+  | [] => .ok []
+  | a :: rest => match a with
+    | .error e => .error e
+    | .ok v => (match evalArgs rest with | .error e => .error e | .ok vs => .ok (v :: vs))
+
+/-- the abstract storage operation a method call stands for (`backend`: the call goes to the enfolded storage, which may
+be unable to store the policy; the cache store is an in-memory storage and accepts every policy) -/
+def storeOpOf (meth : String) (args : List V) (backend : Bool) : Option Store.Op :=
+  match meth, args with
+  | "add", [.polv u p ok] => some (.add u p (if backend then ok else true))
+  | "update", [.polv u p ok] => some (.update u p (if backend then ok else true))
+  | "delete", [.py (.str u)] => some (.delete u)
+  | "get", [.py (.str u)] => some (.get u)
+  | "get_all", [.py (.int l), .py (.int o)] => some (.getAll l o)
+  | "retrieve_all", [.py (.int b)] => some (.retrieveAll b)
+  | _, _ => Option.none
+
+/-- the uid a `get` was called with -/
+def uidArg : List V → Store.Uid
+  | [.py (.str u)] => u
+  | _ => []
+
+/-- `self.storage.<meth>(args)` / `self.cache.<meth>(args)`: the abstract store takes the step; a normal return hands the
+result and the new world to what follows, an exception ends the method with the world as it then is -/
+def stCallM (target meth : String) (args : List M) (w : M) (k : V → V → M) : M :=
+  bindM w fun w => match evalArgs args with
+    | .error e => .error e
+    | .ok vs => match w with
+      | .eworld cfg s touched Option.none =>
+        let isB := target == "storage"
+        (match storeOpOf meth vs isB with
+         | Option.none => raiseM
+         | some op =>
+           let r := Store.step (if isB then cfg else Enfold.memCfg) (if isB then s.backend else s.cache) op
+           let s' : Enfold.EState := if isB then { s with backend := r.1 } else { s with cache := r.1 }
+           let t := touched || isB
+           (match r.2 with
+            | .done => k (.py .none) (.eworld cfg s' t Option.none)
+            | .pol Option.none => k (.py .none) (.eworld cfg s' t Option.none)
+            | .pol (some p) => k (.polv (uidArg vs) p true) (.eworld cfg s' t Option.none)
+            | .pols l => k (.pols l) (.eworld cfg s' t Option.none)
+            | e => .ok (.eworld cfg s' t (some e))))
+      | _ => raiseM
+
+/-- `return x` of a method that acts on a world: the value and the world -/
+def pairM (x w : M) : M := bindM x fun x => bindM w fun w => .ok (.seq [x, w])
 
 end Vakt.PyPrim
